@@ -804,7 +804,24 @@ class Mesh:
         data['doflocs'] = data.pop('p')
         data['_subdomains'] = data.pop('subdomains')
         data['_boundaries'] = data.pop('boundaries')
-        return cls(**data)
+        return cls(**data)._same_sides_as_stored(data['t'])
+
+    def _same_sides_as_stored(self, t):
+        """Orientation flags are row indices of f2t, whose rows depend on the
+        local vertex order: if the constructor has re-sorted the stored
+        connectivity ``t``, name the same cells as before."""
+        if self._boundaries is None or np.array_equal(self.t, t):
+            return self
+        raw = type(self)(self.doflocs, t, sort_t=False, validate=False)
+        boundaries = {}
+        for k, v in self._boundaries.items():
+            facets = np.asarray(v)
+            ori = getattr(v, 'ori', None)
+            cells = raw.f2t[0 if ori is None else ori, facets]
+            ori = 1 * (self.f2t[1, facets] == cells)
+            boundaries[k] = (OrientedBoundary(facets, ori)
+                             if ori.any() else facets)
+        return replace(self, _boundaries=boundaries)
 
     def to_dict(self):
 
@@ -1427,7 +1444,7 @@ class Mesh:
             data['t'],
             _boundaries=boundaries if boundaries else None,
             _subdomains=subdomains if subdomains else None,
-        )
+        )._same_sides_as_stored(data['t'])
 
     def save_npz(self, filename: str):
 
